@@ -11,6 +11,7 @@ from __future__ import annotations
 import ast
 
 from ..astutil import FUNC_TYPES, dotted, walk_local, src, call_name
+from .. import pattern as P
 
 SET_CTORS = {"set", "frozenset", "IdSet"}
 ORDER_FREE_CONSUMERS = {"len", "sorted", "min", "max", "any", "all", "sum", "set", "frozenset", "bool", "IdSet"}
@@ -20,7 +21,7 @@ ORDER_SENSITIVE_CONSUMERS = {"list", "tuple", "enumerate", "iter", "next", "zip"
 def _ann_is_set(ann: ast.AST | None) -> bool:
     if ann is None:
         return False
-    text = src(ann)
+    text = P.T(ann)
     head = text.split("[")[0].strip().strip("'\"")
     return head in ("set", "frozenset", "Set", "FrozenSet", "typing.Set", "AbstractSet")
 
